@@ -1601,6 +1601,10 @@ func (s *verifC14Suite) TestVerifC14(c *C) {
 		}
 		x.completed = level
 		if level < depth {
+			if thorough && level >= 3 {
+				// the fourth request of a sequence sees "waiting" only on changes that were waiting before the third
+				x.events = []string{"doing", "undoing", "done", "error"}
+			}
 			frontier = x.closure(merged)
 		}
 		if shard == 0 {
